@@ -72,6 +72,8 @@ pub enum ExtraKind {
     /// `from "mod.txt" import cv as q, range as r`: names the module does not define although
     /// the importer's context (`cv`) or the globals (`range`) do
     FromImportNamesOfImporter,
+    /// names that begin with an underscore, dunder names, capitalised names
+    FromImportOddNames,
     /// error shapes
     IncludeMissing,
     ImportMissing,
@@ -171,6 +173,11 @@ fn helper_templates() -> BTreeMap<String, Vec<Stmt>> {
             text("MODTEXT"),
             Stmt::Macro { name: "m2".into(), params: vec![], body: vec![text("M2")] },
             Stmt::Set { target: Target::Name("mv".into()), value: s("MV") },
+            // names of other shapes are exported like any other
+            Stmt::Macro { name: "_pm".into(), params: vec![("x".into(), None)], body: vec![text("_PM("), Stmt::Emit(v("x")), text(")")] },
+            Stmt::Set { target: Target::Name("_pv".into()), value: s("_PV") },
+            Stmt::Set { target: Target::Name("__dv__".into()), value: s("DV") },
+            Stmt::Set { target: Target::Name("Upper9".into()), value: s("U9") },
             Stmt::If {
                 branches: vec![(Expr::Bool(true), vec![Stmt::Set { target: Target::Name("mi".into()), value: s("MI") }])],
                 else_: None,
@@ -247,6 +254,10 @@ fn extra_stmts(kind: ExtraKind, k: usize, in_macro: bool) -> Vec<Stmt> {
             Stmt::Emit(Expr::Test(Box::new(attr(v(&h), "mloop")), "defined".into(), vec![], false)),
             Stmt::Emit(Expr::Test(Box::new(attr(v(&h), "nothere")), "defined".into(), vec![], false)),
             Stmt::Emit(call0(attr(v(&h), "m2"))),
+            Stmt::Emit(Expr::Call(Box::new(attr(v(&h), "_pm")), vec![Arg::Pos(s("p"))])),
+            Stmt::Emit(attr(v(&h), "_pv")),
+            Stmt::Emit(attr(v(&h), "__dv__")),
+            Stmt::Emit(attr(v(&h), "Upper9")),
         ],
         ExtraKind::FromImport => vec![
             Stmt::FromImport { name: s("mod.txt"), names: vec![("m1".into(), None), ("mv".into(), Some(q.clone())), ("m2".into(), Some(format!("mm{k}")))] },
@@ -255,6 +266,16 @@ fn extra_stmts(kind: ExtraKind, k: usize, in_macro: bool) -> Vec<Stmt> {
             Stmt::Emit(call0(v(&format!("mm{k}")))),
             // the un-aliased names are not bound
             Stmt::Emit(Expr::Test(Box::new(v("mv")), "defined".into(), vec![], false)),
+        ],
+        ExtraKind::FromImportOddNames => vec![
+            Stmt::FromImport {
+                name: s("mod.txt"),
+                names: vec![("_pm".into(), Some(format!("pm{k}"))), ("_pv".into(), None), ("__dv__".into(), Some(format!("dv{k}"))), ("Upper9".into(), None)],
+            },
+            Stmt::Emit(Expr::Call(Box::new(v(&format!("pm{k}"))), vec![Arg::Pos(s("q"))])),
+            Stmt::Emit(v("_pv")),
+            Stmt::Emit(v(&format!("dv{k}"))),
+            Stmt::Emit(v("Upper9")),
         ],
         ExtraKind::FromImportUnknownName => vec![
             Stmt::FromImport { name: s("mod.txt"), names: vec![("nothere".into(), None), ("m2".into(), None)] },
@@ -576,7 +597,7 @@ fn labels_for(case: &ChainCase, v: &mut Verdict) {
     if case.levels.iter().take(n.saturating_sub(1)).any(|l| matches!(l.ext, ExtStyle::InIf | ExtStyle::Dynamic | ExtStyle::Ternary)) {
         v.labels.push("conditional_or_dynamic_extends");
     }
-    if case.levels.iter().any(|l| l.extra.map_or(false, |e| matches!(e.kind, ExtraKind::Import | ExtraKind::FromImport | ExtraKind::FromImportUnknownName | ExtraKind::FromImportCapturedBlock | ExtraKind::FromImportNamesOfImporter))) {
+    if case.levels.iter().any(|l| l.extra.map_or(false, |e| matches!(e.kind, ExtraKind::Import | ExtraKind::FromImport | ExtraKind::FromImportUnknownName | ExtraKind::FromImportCapturedBlock | ExtraKind::FromImportNamesOfImporter | ExtraKind::FromImportOddNames))) {
         v.labels.push("has_import");
     }
     if case.levels.iter().any(|l| l.extra.map_or(false, |e| e.kind == ExtraKind::FromImportUnknownName)) {
@@ -641,6 +662,7 @@ fn extra_strategy() -> BoxedStrategy<Option<Extra>> {
         1 => Just(ExtraKind::FromImportUnknownName),
         2 => Just(ExtraKind::FromImportCapturedBlock),
         2 => Just(ExtraKind::FromImportNamesOfImporter),
+        2 => Just(ExtraKind::FromImportOddNames),
     ];
     let place = prop_oneof![
         Just(Place::Top),
@@ -815,7 +837,7 @@ impl Part for Shapes {
 
 pub struct ExtrasGrid;
 
-const GRID_KINDS: [ExtraKind; 14] = [
+const GRID_KINDS: [ExtraKind; 15] = [
     ExtraKind::Include,
     ExtraKind::IncludeDynamic,
     ExtraKind::IncludeListFirstMissing,
@@ -830,6 +852,7 @@ const GRID_KINDS: [ExtraKind; 14] = [
     ExtraKind::FromImportUnknownName,
     ExtraKind::FromImportCapturedBlock,
     ExtraKind::FromImportNamesOfImporter,
+    ExtraKind::FromImportOddNames,
 ];
 
 const GRID_PLACES: [Place; 6] = [Place::Top, Place::Block, Place::LoopInBlock, Place::WithInBlock, Place::Macro, Place::TopCapture];
